@@ -185,7 +185,8 @@ impl<S> IndexMap<S> {
 #[cfg(json_syntax_verif)]
 impl<S> IndexMap<S> {
 	/// Verification hook: number of buckets of the raw table and, for each
-	/// occupied bucket, its representative and other positions. Read-only.
+	/// occupied bucket (in table iteration order), its representative and
+	/// other positions. Read-only.
 	pub fn verif_dump(&self) -> (usize, Vec<(usize, Vec<usize>)>) {
 		let mut dump = Vec::with_capacity(self.table.len());
 		unsafe {
@@ -194,7 +195,6 @@ impl<S> IndexMap<S> {
 				dump.push((indexes.rep, indexes.other.clone()));
 			}
 		}
-		dump.sort();
 		(self.table.buckets(), dump)
 	}
 }
